@@ -3,6 +3,7 @@ package pngmeta
 import (
 	"fmt"
 	"github.com/mandykoh/prism/meta/binary"
+	"io"
 )
 
 type chunkHeader struct {
@@ -23,12 +24,11 @@ func readChunkHeader(r binary.Reader) (chunkHeader, error) {
 		return ch, err
 	}
 
-	bytesRead, err := r.Read(ch.ChunkType[:])
-	if err != nil {
+	if _, err = io.ReadFull(r, ch.ChunkType[:]); err != nil {
+		if err == io.ErrUnexpectedEOF {
+			return ch, fmt.Errorf("unexpected EOF reading chunk type")
+		}
 		return ch, err
-	}
-	if bytesRead != len(ch.ChunkType) {
-		return ch, fmt.Errorf("unexpected EOF reading chunk type")
 	}
 
 	return ch, nil
